@@ -1305,6 +1305,20 @@ func (e *Exec) stdlibCall(st *State, call *ast.CallExpr, fn *types.Func, key str
 	case "fmt.Printf", "fmt.Println", "fmt.Print":
 		return []Term{IntLit(0), NilCont}, true
 	}
+	if path == "sync" && recv != nil && strings.HasSuffix(recv.Ty.String(), "sync.Pool") {
+		switch fn.Name() {
+		case "Put":
+			return nil, true
+		case "Get":
+			// a package-level pool whose New function returns &T{}: Get yields SOME object of that type - a recycled
+			// one in arbitrary state or a new one; modelled as a newly allocated object with arbitrary fields
+			if t := e.poolElemType(call); t != nil {
+				ref := e.allocRef(st, "pool")
+				e.note("stdlib", "sync.Pool.Get returns a non-nil value of the type its New function returns, in arbitrary state, not shared with anything reachable (pools are only fed by Put of objects the caller no longer uses)")
+				return []Term{MkCont(IntLit(int64(e.kindCode(t))), ref)}, true
+			}
+		}
+	}
 	if full == "encoding/binary.Write" && len(args) == 3 && args[0].T.Sort == SCont {
 		// fixed-size unsigned value, little endian: encoding/binary encodes it into a fresh buffer and calls w.Write once
 		// the data parameter is `any`: look at the static type of the argument expression
@@ -1381,6 +1395,78 @@ func (e *Exec) stdlibCall(st *State, call *ast.CallExpr, fn *types.Func, key str
 		}
 	}
 	return nil, false
+}
+
+// poolElemType: for a call `P.Get()` on a package-level sync.Pool variable declared with a composite literal whose New
+// field is a function literal, the type of the value that function returns.
+func (e *Exec) poolElemType(call *ast.CallExpr) types.Type {
+	if call == nil {
+		return nil
+	}
+	sel, ok := call.Fun.(*ast.SelectorExpr)
+	if !ok {
+		return nil
+	}
+	var id *ast.Ident
+	switch x := sel.X.(type) {
+	case *ast.Ident:
+		id = x
+	case *ast.SelectorExpr:
+		id = x.Sel
+	}
+	if id == nil {
+		return nil
+	}
+	obj, _ := e.info.ObjectOf(id).(*types.Var)
+	if obj == nil || obj.Pkg() == nil {
+		return nil
+	}
+	pkg := e.prog.Pkgs[pkgShort(obj.Pkg().Path())]
+	if pkg == nil {
+		return nil
+	}
+	var out types.Type
+	for _, f := range pkg.Syntax {
+		ast.Inspect(f, func(n ast.Node) bool {
+			vs, ok := n.(*ast.ValueSpec)
+			if !ok || out != nil {
+				return out == nil
+			}
+			for i, nm := range vs.Names {
+				if pkg.TypesInfo.Defs[nm] != obj || i >= len(vs.Values) {
+					continue
+				}
+				cl, ok := vs.Values[i].(*ast.CompositeLit)
+				if !ok {
+					continue
+				}
+				for _, el := range cl.Elts {
+					kv, ok := el.(*ast.KeyValueExpr)
+					if !ok {
+						continue
+					}
+					if k, ok := kv.Key.(*ast.Ident); !ok || k.Name != "New" {
+						continue
+					}
+					fl, ok := kv.Value.(*ast.FuncLit)
+					if !ok {
+						continue
+					}
+					ast.Inspect(fl.Body, func(m ast.Node) bool {
+						if r, ok := m.(*ast.ReturnStmt); ok && len(r.Results) == 1 && out == nil {
+							out = pkg.TypesInfo.TypeOf(r.Results[0])
+						}
+						return out == nil
+					})
+				}
+			}
+			return out == nil
+		})
+	}
+	if _, isPtr := out.(*types.Pointer); !isPtr {
+		return nil
+	}
+	return out
 }
 
 func (e *Exec) needTzLz() {
